@@ -179,6 +179,15 @@ var c08Recursion = []string{
 	`function f(n) { if (n < 300) { return f(n + 1); } return n; } return f(0);`,
 }
 
+// scripts that build a deeply nested value at run time and then print it
+// (%d = number of loop iterations)
+var c08RuntimeNest = []string{
+	`a = [1]; i = 0; while (i < %d) { a = [a]; i++; } return len(string(a));`,
+	`a = {"k": 1}; i = 0; while (i < %d) { a = {"k": a}; i++; } return len(string(a));`,
+	`a = [1]; i = 0; while (i < %d) { a = [a, i]; i++; } return sprintf("%%v", a) == "";`,
+	`a = [1]; i = 0; while (i < %d) { a = [a]; i++; } return a;`,
+}
+
 var hostileDict = []string{"(", ")", "{", "}", "[", "]", ";", ",", ":", "?", "=", "==", "!=", "<", "<=", ">", ">=", "+", "-", "*", "/", "%", "**", "++", "--", "+=", "-=", "*=", "/=",
 	"&&", "||", "!", "~=", "!~", "..", ".", "√", "in", "if", "else", "while", "for", "foreach", "function", "return", "local", "switch", "case", "default", "true", "false",
 	"\"", "'", "/", "/a/", "/(/", "/[/i", "\"unterminated", "0x", "1e999", "99999999999999999999999", "1.2.3", "0.", ".5", "$x", "_", "x", "f", "\\", "\x00", "\xff\xfe", "é", "𝒳", "`", "#", "//", "/*", "@", "~", "^", "&", "|",
@@ -225,6 +234,15 @@ func (p *c08) Enumerate(tier string) [][]int32 {
 			for opt := 0; opt < 2; opt++ {
 				out = append(out, []int32{5, int32(s), int32(api), int32(opt)})
 			}
+		}
+	}
+	for s := range c08RuntimeNest {
+		depths := []int32{100, 3000}
+		if s == 0 || tier == "thorough" {
+			depths = append(depths, 400000)
+		}
+		for _, d := range depths {
+			out = append(out, []int32{12, int32(s), d})
 		}
 	}
 	for kind := 0; kind < nestKinds; kind++ {
@@ -294,10 +312,15 @@ func (p *c08) check(o *Outcome, esc *Escaped, what string) bool {
 func (p *c08) apiCall(ev *c08Eval, api int, obj interface{}) Result {
 	ev.ctx.Rearm(-1)
 	ev.ctx.HardCap = c08HardCap
-	if api == 1 {
-		return doRun(ev.e, obj)
-	}
-	return doExecute(ev.e, obj)
+	var r Result
+	under(ev.ctx, func() {
+		if api == 1 {
+			r = doRun(ev.e, obj)
+		} else {
+			r = doExecute(ev.e, obj)
+		}
+	})
+	return r
 }
 
 // usable checks that an evaluator that has seen faults still serves a benign
@@ -420,7 +443,7 @@ func (p *c08) mutate(c *verifsim.Chooser, text string) (string, string) {
 func (p *c08) Run(c *verifsim.Chooser, st *Stats, render bool) *Outcome {
 	o := &Outcome{}
 	// weighted: 0 history x5, hostile text x3, tables x1 each, nesting, recursion
-	mode := []int{0, 1, 2, 3, 4, 5, 0, 0, 0, 0, 3, 3}[c.Intn(12)]
+	mode := []int{0, 1, 2, 3, 4, 5, 0, 0, 0, 0, 3, 3, 6}[c.Intn(13)]
 	sample := map[string]interface{}{}
 	defer func() {
 		if render {
@@ -491,17 +514,20 @@ func (p *c08) Run(c *verifsim.Chooser, st *Stats, render bool) *Outcome {
 		sample["mode"], sample["script"] = "recursion", text
 		o.Digest.Str(text)
 		ev := p.newEval(text, "")
-		ev.e.SetContext(verifsim.NewSimContext(-1)) // no deadline at all: the engine must cope by itself
+		nolimit := verifsim.NewSimContext(-1) // no deadline at all: the engine must cope by itself
+		ev.e.SetContext(nolimit)
 		err, esc := doPrepare(ev.e, opt)
 		if p.check(o, esc, "Prepare") || err != nil {
 			return o
 		}
 		var r Result
-		if api == 1 {
-			r = doRun(ev.e, nil)
-		} else {
-			r = doExecute(ev.e, nil)
-		}
+		under(nolimit, func() {
+			if api == 1 {
+				r = doRun(ev.e, nil)
+			} else {
+				r = doExecute(ev.e, nil)
+			}
+		})
 		sample["result"] = r.String()
 		o.Digest.Str(r.String())
 		o.Nontrivial = true
@@ -510,6 +536,37 @@ func (p *c08) Run(c *verifsim.Chooser, st *Stats, render bool) *Outcome {
 			return o
 		}
 		p.usable(o, ev, text, opt, "recursion")
+	case 6: // values nested deeply at run time, then printed
+		si := c.Intn(len(c08RuntimeNest))
+		n := 1 + c.Intn(400000)
+		if n != 400000 && n > 3000 {
+			n = 1 + n%3000 // random cases stay moderate; the table has the deep end
+		}
+		text := fmt.Sprintf(c08RuntimeNest[si], n)
+		currentDesc.Store(fmt.Sprintf("runtime nesting %d depth %d", si, n))
+		sample["mode"], sample["script"] = "runtime nesting", text
+		o.Digest.Str(text)
+		ev := p.newEval(text, "")
+		err, esc := doPrepare(ev.e, c.Intn(2) == 0)
+		if p.check(o, esc, "Prepare") || err != nil {
+			return o
+		}
+		ev.ctx.Rearm(-1)
+		ev.ctx.HardCap = 20 * int64(n) + 1000
+		var r Result
+		under(ev.ctx, func() { r = doExecute(ev.e, nil) })
+		sample["result"] = clip(r.String(), 80)
+		o.Nontrivial = true
+		st.fault("runtime-nesting")
+		st.max("runtime_nesting_depth", int64(n))
+		if p.check(o, r.Escaped, "printing a value nested at run time") {
+			return o
+		}
+		ev.ctx.Rearm(-1)
+		ev.ctx.HardCap = 20*int64(n) + 1000
+		var r2 Result
+		under(ev.ctx, func() { r2 = doRun(ev.e, nil) })
+		p.check(o, r2.Escaped, "Run on a value nested at run time")
 	case 4: // deep nesting
 		kind := c.Intn(nestKinds)
 		depth := 1 + c.Intn(50001)
@@ -625,18 +682,19 @@ func (p *c08) Run(c *verifsim.Chooser, st *Stats, render bool) *Outcome {
 			ev.ctx.HardCap = c08HardCap
 			var r Result
 			api := c.Intn(3)
-			switch api {
-			case 1:
-				r = doRun(ev.e, obj)
-			case 2:
+			if api == 2 {
 				_, _, desc := doDump(ev.e)
 				if p.check(o, desc, "Dump in a fault history") {
 					return o
 				}
-				r = doExecute(ev.e, obj)
-			default:
-				r = doExecute(ev.e, obj)
 			}
+			under(ev.ctx, func() {
+				if api == 1 {
+					r = doRun(ev.e, obj)
+				} else {
+					r = doExecute(ev.e, obj)
+				}
+			})
 			hist = append(hist, fmt.Sprintf("%s on %s fault=%s -> %s", []string{"Execute", "Run", "Dump+Execute"}[api], od, fault, r.String()))
 			sample["history"] = hist
 			o.Digest.Str(r.String())
